@@ -97,6 +97,16 @@ Definition check_cell_material
   let '(toks, kmat, krho, expected) := c in
   res_eqb (pair_eqb String.eqb (option_eqb String.eqb)) (cell_material toks kmat krho) expected.
 
+(* ---- LIKE chains ---- *)
+Definition check_card_material
+  (c : idict card * Z * res (string * option string)) : bool :=
+  let '(cards, k, expected) := c in
+  match ilookup k cards with
+  | None => false
+  | Some cd => res_eqb (pair_eqb String.eqb (option_eqb String.eqb))
+                 (card_material (S (List.length cards)) cards cd) expected
+  end.
+
 (* ---- pot_fill on synthetic dictionaries ---- *)
 Definition zpair_eqb (a b : Z * Z) : bool := (fst a =? fst b)%Z && (snd a =? snd b)%Z.
 
@@ -208,3 +218,9 @@ Definition check_pipeline (c : dict cell * Z * list (Z * list Z) * list cell_sig
   | Ok l => list_eqb sig_eqb l expected
   | Err _ => false
   end.
+
+(* ---- the COMPOSITION block, byte for byte ---- *)
+Definition check_write_comp
+  (c : list mcard * dict cell * list (string * list (string * string)) * res string) : bool :=
+  let '(mcs, cells, pw, expected) := c in
+  res_eqb String.eqb (write_compositions mcs cells pw) expected.
